@@ -253,5 +253,67 @@ Print Assumptions C03_arena_compose_prune_one_terminal_counter_threaded.
 Print Assumptions C03_arena_compose_prune_refines_index_free_oracle.
 Print Assumptions C03_arena_compose_prune_refines.
 Print Assumptions C03_arena_compose_prune_preserves.
+Print Assumptions C03_replay_oracle_index_free.
+Print Assumptions C03_cshape_is_eqb_shape.
 Print Assumptions C03_arena_compose_prune_nonvacuous.
 (* x-acprune end -------------------------------------------------------------------------------------------------- *)
+
+(* x-aelim begin --------------------------------------------------------------------------------------------------
+   infeasible_elimination at the level of the slab arena.  Pwl/AElim.v models the code as the imperative machine it is:
+   DfsPre (explicit stack, last_push, skip_subtree), PolyhedraGen (the predicates stack kept in step through last_depth,
+   the edge row read from the node's current parent pointer), the deferred to_remove queue, forward_if_redundant
+   (remove_child + merge_child_with_parent in the middle of the traversal, Err at the root discarded), the final loop
+   that never removes a last remaining child; None = a panic path (unwrap / expect / assert!) or fuel exhausted.
+   The machine computes the structural recursion `elim` all the theorems above are about -- for every oracle:
+     arena_tree a r t : the arena holds t at root r (mirrored parent/child links, two child slots per node, terminals
+                        without children, no index twice); decidable: AElimRefine.arena_okb
+     wne t, mir_ne o  : no FeasibleWitness state with an empty list, no mirror answer Some [] (what keeps
+                        assert!(!solution.is_empty()) of phase_inh quiet)
+   Conclusion: no panic, at most csize t + 1 iterations (the fuel length a + 1 of aelim suffices), the same LP / mirror
+   call counts, the returned arena holds fst (elim o tol t) with surviving nodes under their old indices, and every
+   cell outside the old tree is untouched. *)
+From AT Require AElim AElimBase AElimRefine AElimExample.
+Theorem C03_arena_elim_refines : forall o tol a r t,
+  AElimBase.mir_ne o -> AElimBase.arena_tree a r t -> AElimBase.wne t ->
+  exists a', AElim.aelim o tol a r = Some (a', snd (elim o tol t)) /\
+             AElimBase.arena_tree a' r (fst (elim o tol t)) /\
+             (forall j, ~ In j (AElimBase.idxs t) -> aget a' j = aget a j).
+Proof. exact AElimRefine.aelim_refines. Qed.
+(* the same through the abstraction function cabs of Pwl/Elim.v and the executable link check *)
+Theorem C03_arena_elim_refines_cabs : forall o tol a r fuel t, AElimBase.mir_ne o ->
+  cabs fuel a r = Some t -> AElimRefine.linksb fuel a None r = true -> NoDup (AElimBase.idxs t) -> AElimBase.wne t ->
+  exists a' fuel', AElim.aelim o tol a r = Some (a', snd (elim o tol t)) /\ cabs fuel' a' r = Some (fst (elim o tol t)).
+Proof. exact AElimRefine.aelim_refines_cabs. Qed.
+(* the main loop alone, with the iteration bound and independence of surplus fuel; then the final removal loop *)
+Theorem C03_arena_elim_run : forall o tol a r t, AElimBase.mir_ne o -> AElimBase.arena_tree a r t -> AElimBase.wne t ->
+  exists c a',
+    (forall f, (AElimBase.csize t < f)%nat -> AElim.ae_loop f o tol r (AElim.ae_init a r) = Some c) /\
+    AElim.m_k c = snd (elim o tol t) /\
+    AElim.ae_final (AElim.m_rem c) (AElim.m_ar c) = Some a' /\
+    AElimBase.arena_tree a' r (fst (elim o tol t)) /\
+    (forall j, ~ In j (AElimBase.idxs t) -> aget a' j = aget a j).
+Proof. exact AElimRefine.aelim_run. Qed.
+(* with C03_elim_preserves: the function represented by the arena the machine returns *)
+Theorem C03_arena_elim_preserves : forall o tol a r t x,
+  AElimBase.mir_ne o -> AElimBase.arena_tree a r t -> AElimBase.wne t -> osound o x -> marks_kids x [] t ->
+  exists a' k' fuel' t', AElim.aelim o tol a r = Some (a', k') /\ cabs fuel' a' r = Some t' /\ cev t' x = cev t x.
+Proof. exact AElimRefine.aelim_preserves. Qed.
+(* the decidable form of the assumptions on the arena *)
+Theorem C03_arena_ok_sound : forall a r, AElimRefine.arena_okb a r = true ->
+  exists t, cabs (S (length a)) a r = Some t /\ AElimBase.arena_tree a r t /\ AElimBase.wne t.
+Proof. exact AElimRefine.arena_okb_sound. Qed.
+(* non-vacuity: the tree of C03_nonvacuous in a slab arena; the run removes terminal 4, merges decision 2 away *)
+Example C03_arena_elim_nonvacuous :
+  AElimRefine.arena_okb AElimExample.exa_arena 0 = true /\ cabs 6 AElimExample.exa_arena 0 = Some ex_t /\
+  AElimBase.arena_tree AElimExample.exa_arena 0 ex_t /\ AElimBase.wne ex_t /\ AElimBase.mir_ne ex_o /\
+  AElim.aelim ex_o 0 AElimExample.exa_arena 0 = Some (AElimExample.exa_after, {| k_lp := 4; k_mir := 0 |}) /\
+  elim ex_o 0 ex_t = (ex_r, {| k_lp := 4; k_mir := 0 |}) /\
+  cabs 2 AElimExample.exa_after 0 = Some ex_r.
+Proof. exact AElimExample.exa_run. Qed.
+Print Assumptions C03_arena_elim_refines.
+Print Assumptions C03_arena_elim_refines_cabs.
+Print Assumptions C03_arena_elim_run.
+Print Assumptions C03_arena_elim_preserves.
+Print Assumptions C03_arena_ok_sound.
+Print Assumptions C03_arena_elim_nonvacuous.
+(* x-aelim end ---------------------------------------------------------------------------------------------------- *)
